@@ -27,9 +27,6 @@ open Sqf Sqf.Pp
 
 /-! ## The reader -/
 
-/-- number of newlines in a text -/
-def newlines (s : List B) : Nat := (s.filter (· = 10)).length
-
 theorem base_plain (inStr : Bool) (ln : Nat) (c : B) (h1 : c ≠ 13) (h2 : c ≠ 92) (h3 : c ≠ 34) (h4 : c ≠ 47 ∨ inStr = true) :
     base inStr ln c = ([(c, if c = 10 then ln + 1 else ln)], RS.base inStr, if c = 10 then ln + 1 else ln) := by
   unfold base
@@ -192,18 +189,71 @@ theorem strip_plain (text : List B) : ∀ (inStr : Bool) (ln : Nat), (∀ c ∈ 
 theorem emit_inactive (st : St) (x : List B) (h : st.writing = false) : st.emit x = st := by
   simp [St.emit, h]
 
+/-! ### `sync`: the line count of the output follows the line of the input -/
+
+theorem sync_table (st : St) (phys : List B) (ln : Nat) (a : Bool) : (st.sync phys ln a).table = st.table := by
+  unfold St.sync
+  split
+  · rfl
+  · split <;> rfl
+
+theorem sync_conds (st : St) (phys : List B) (ln : Nat) (a : Bool) : (st.sync phys ln a).conds = st.conds := by
+  unfold St.sync
+  split
+  · rfl
+  · split <;> rfl
+
+theorem sync_writing (st : St) (phys : List B) (ln : Nat) (a : Bool) : (st.sync phys ln a).writing = st.writing := by
+  simp [St.writing, sync_conds]
+
+/-- what `sync` may add to the output: newlines, or a newline and a `#line` marker -/
+def SyncOut (phys : List B) (o o' : List B) : Prop :=
+  (∃ k, o' = o ++ List.replicate k nl) ∨ (∃ n, o' = o ++ [nl] ++ lineMarker n phys)
+
+theorem sync_out (st : St) (phys : List B) (ln : Nat) (a : Bool) : SyncOut phys st.out (st.sync phys ln a).out := by
+  unfold St.sync
+  split
+  · exact Or.inl ⟨_, rfl⟩
+  · split
+    · exact Or.inr ⟨_, rfl⟩
+    · exact Or.inl ⟨0, by simp⟩
+
+/-- **Every `sync` leaves the output at the line of the input** -/
+theorem sync_ol (st : St) (phys : List B) (ln : Nat) (a : Bool) : (st.sync phys ln a).ol = ln := by
+  unfold St.sync
+  split
+  · rfl
+  · next h1 =>
+    split
+    · rfl
+    · next h2 =>
+      simp only [Bool.or_eq_true, decide_eq_true_eq, not_or] at h2
+      show st.ol = ln
+      omega
+
+/-- the usual case: one line was consumed, one newline is written -/
+theorem sync_one (st : St) (phys : List B) (ln : Nat) (h : st.ol + 1 = ln) :
+    st.sync phys ln true = { st with out := st.out ++ [nl], ol := ln } := by
+  unfold St.sync
+  have : st.ol < ln := by omega
+  simp only [this, if_true]
+  have : ln - st.ol = 1 := by omega
+  rw [this]; rfl
+
 /-- what a step may do to the conditions of the file -/
 def CondsStep (c c' : List Bool) : Prop :=
   c' = c ∨ (∃ b, c' = b :: c) ∨ (∃ b cs, c = b :: cs ∧ (c' = (!b) :: cs ∨ c' = cs))
 
 /-- **Inactive sections are silent (one step)**: while the conditionals of the file do not allow writing, a
 token or a directive — whatever it is: a macro use, a `#define`, an `#undef`, an `#include`, an unknown
-directive — leaves the macro table as it is and adds at most a newline to the output; only the conditions
-change (an `#ifdef` opens one, `#else` flips, `#endif` closes the innermost) -/
+directive — leaves the macro table as it is and adds nothing to the output but what keeps its line count
+right (newlines, or a newline and a `#line` marker); only the conditions change (an `#ifdef` opens one,
+`#else` flips, `#endif` closes the innermost) -/
 theorem C13_step_inactive (e : Env) (f : Nat) (stack : List (List B)) (phys : List B) (st : St) (ch : Ch) (rest : List Ch)
     (bol : Bool) (ln : Nat) (st' : St) (pos : Pos) (hw : st.writing = false)
     (h : step e f stack phys st ch rest bol ln = .ok (st', pos)) :
-    st'.table = st.table ∧ (st'.out = st.out ∨ st'.out = st.out ++ [nl]) ∧ CondsStep st.conds st'.conds := by
+    st'.table = st.table ∧ SyncOut phys st.out st'.out ∧ CondsStep st.conds st'.conds := by
+  have same : SyncOut phys st.out st.out := Or.inl ⟨0, by simp⟩
   cases f with
   | zero => simp [step] at h
   | succ f =>
@@ -212,10 +262,10 @@ theorem C13_step_inactive (e : Env) (f : Nat) (stack : List (List B)) (phys : Li
     simp only [] at h
     split at h
     · simp only [emit_inactive st _ hw, Except.ok.injEq, Prod.mk.injEq] at h
-      rw [← h.1]; exact ⟨rfl, Or.inl rfl, Or.inl rfl⟩
+      rw [← h.1]; exact ⟨rfl, same, Or.inl rfl⟩
     · split at h
       · simp only [Except.ok.injEq, Prod.mk.injEq] at h
-        rw [← h.1]; exact ⟨rfl, Or.inr rfl, Or.inl rfl⟩
+        rw [← h.1]; exact ⟨sync_table .., sync_out .., Or.inl (sync_conds ..)⟩
       · split at h
         · -- a directive
           cases f with
@@ -224,26 +274,26 @@ theorem C13_step_inactive (e : Env) (f : Nat) (stack : List (List B)) (phys : Li
             rw [directive] at h
             split at h
             · simp only [Except.ok.injEq, Prod.mk.injEq] at h
-              rw [← h.1]; exact ⟨rfl, Or.inr rfl, Or.inr (Or.inl ⟨_, rfl⟩)⟩
+              rw [← h.1]; exact ⟨sync_table .., sync_out .., Or.inr (Or.inl ⟨_, rfl⟩)⟩
             · simp only [Except.ok.injEq, Prod.mk.injEq] at h
-              rw [← h.1]; exact ⟨rfl, Or.inr rfl, Or.inr (Or.inl ⟨_, rfl⟩)⟩
+              rw [← h.1]; exact ⟨sync_table .., sync_out .., Or.inr (Or.inl ⟨_, rfl⟩)⟩
             · split at h
               · cases h
               · next b cs hc =>
                 simp only [Except.ok.injEq, Prod.mk.injEq] at h
-                rw [← h.1]; exact ⟨rfl, Or.inr rfl, Or.inr (Or.inr ⟨b, cs, hc, Or.inl rfl⟩)⟩
+                rw [← h.1]; exact ⟨sync_table .., sync_out .., Or.inr (Or.inr ⟨b, cs, hc, Or.inl rfl⟩)⟩
             · split at h
               · cases h
               · next b cs hc =>
                 simp only [Except.ok.injEq, Prod.mk.injEq] at h
-                rw [← h.1]; exact ⟨rfl, Or.inr rfl, Or.inr (Or.inr ⟨b, cs, hc, Or.inr rfl⟩)⟩
+                rw [← h.1]; exact ⟨sync_table .., sync_out .., Or.inr (Or.inr ⟨b, cs, hc, Or.inr rfl⟩)⟩
             · simp only [hw, Bool.not_false, if_true, Except.ok.injEq, Prod.mk.injEq] at h
-              rw [← h.1]; exact ⟨rfl, Or.inr rfl, Or.inl rfl⟩
+              rw [← h.1]; exact ⟨sync_table .., sync_out .., Or.inl (sync_conds ..)⟩
         · split at h
           · simp only [hw, Bool.not_false, if_true, Except.ok.injEq, Prod.mk.injEq] at h
-            rw [← h.1]; exact ⟨rfl, Or.inl rfl, Or.inl rfl⟩
+            rw [← h.1]; exact ⟨rfl, same, Or.inl rfl⟩
           · simp only [emit_inactive st _ hw, Except.ok.injEq, Prod.mk.injEq] at h
-            rw [← h.1]; exact ⟨rfl, Or.inl rfl, Or.inl rfl⟩
+            rw [← h.1]; exact ⟨rfl, same, Or.inl rfl⟩
 
 /-- a run of the main loop of one file: zero or more steps (each with whatever fuel it was given) -/
 inductive Steps (e : Env) (stack : List (List B)) (phys : List B) : St × Pos → St × Pos → Prop where
@@ -279,28 +329,35 @@ inductive QuietSteps (e : Env) (stack : List (List B)) (phys : List B) : St × P
       st.writing = false → step e f stack phys st ch rest b l = .ok y → QuietSteps e stack phys y z →
       QuietSteps e stack phys (st, (ch :: rest, b, l)) z
 
+/-- text that consists of newlines and `#line` markers of the file only -/
+inductive Fill (phys : List B) : List B → Prop where
+  | nil : Fill phys []
+  | nls (k : Nat) {rest : List B} : Fill phys rest → Fill phys (List.replicate k nl ++ rest)
+  | marker (n : Nat) {rest : List B} : Fill phys rest → Fill phys ([nl] ++ lineMarker n phys ++ rest)
+
 /-- **Text in an inactive conditional branch never reaches the output and directives there have no
 effect**: over any stretch of a file during which the conditionals do not allow writing, the macro table
-stays as it was and the output grows by newlines only (they keep the line numbers of what follows) -/
+stays as it was and the output grows by newlines and `#line` markers only (they keep the line numbers of
+what follows) -/
 theorem C13_inactive_silent (e : Env) (stack : List (List B)) (phys : List B) (x y : St × Pos)
     (h : QuietSteps e stack phys x y) :
-    y.1.table = x.1.table ∧ ∃ k, y.1.out = x.1.out ++ List.replicate k nl := by
+    y.1.table = x.1.table ∧ ∃ fill, Fill phys fill ∧ y.1.out = x.1.out ++ fill := by
   induction h with
-  | refl x => exact ⟨rfl, 0, by simp⟩
+  | refl x => exact ⟨rfl, [], Fill.nil, by simp⟩
   | @next f st ch rest b l y z hw hs _ ih =>
     obtain ⟨st1, pos1⟩ := y
     obtain ⟨ht, ho, _⟩ := C13_step_inactive e f stack phys st ch rest b l st1 pos1 hw hs
-    obtain ⟨iht, k, ihk⟩ := ih
+    obtain ⟨iht, fill, hf, ihk⟩ := ih
     refine ⟨by simpa [ht] using iht, ?_⟩
     cases ho with
-    | inl ho => exact ⟨k, by simpa [ho] using ihk⟩
+    | inl ho =>
+      obtain ⟨k, hk⟩ := ho
+      exact ⟨List.replicate k nl ++ fill, Fill.nls k hf, by simp only [] at ihk hk ⊢; rw [ihk, hk, List.append_assoc]⟩
     | inr ho =>
-      refine ⟨k + 1, ?_⟩
-      simp only [ho] at ihk
-      rw [ihk, List.append_assoc, List.replicate_succ]
-      rfl
+      obtain ⟨n, hn⟩ := ho
+      exact ⟨[nl] ++ lineMarker n phys ++ fill, Fill.marker n hf, by simp only [] at ihk hn ⊢; rw [ihk, hn]; simp [List.append_assoc]⟩
 
-theorem emit_active (st : St) (x : List B) (h : st.writing = true) : st.emit x = { st with out := st.out ++ x } := by
+theorem emit_active (st : St) (x : List B) (h : st.writing = true) : st.emit x = st.write x := by
   simp [St.emit, h]
 
 theorem takeString_spec (body : List Ch) (q : Ch) (rest : List Ch) (hq : q.1 = 34) (h : ∀ c ∈ body, c.1 ≠ 34) :
@@ -318,7 +375,7 @@ reader delivered it; neither macro names nor `#` inside it are looked at, the ma
 theorem C13_step_string (e : Env) (f : Nat) (stack : List (List B)) (phys : List B) (st : St) (l : Nat) (body : List Ch) (q : Ch)
     (rest : List Ch) (bol : Bool) (ln : Nat) (hq : q.1 = 34) (h : ∀ c ∈ body, c.1 ≠ 34) (hw : st.writing = true) :
     ∃ l', step e (f + 1) stack phys st (34, l) (body ++ q :: rest) bol ln =
-      .ok ({ st with out := st.out ++ 34 :: txt body ++ [34] }, (rest, false, l')) := by
+      .ok (st.write (34 :: txt body ++ [34]), (rest, false, l')) := by
   refine ⟨lastLine ((34, l) :: List.take ((txt body).length + 1) (body ++ q :: rest)) l, ?_⟩
   rw [step]
   simp [quote, takeString_spec body q rest hq h, emit_active _ _ hw]
@@ -439,41 +496,107 @@ theorem txt_take (k : Nat) (l : List Ch) : txt (l.take k) = (txt l).take k := by
 
 theorem txt_length (l : List Ch) : (txt l).length = l.length := by simp [txt]
 
-/-- one step over text that holds no `#` and no macro name: what was consumed is what is written -/
+/-- the line annotations of delivered characters count exactly the newlines among them (no line was joined
+    and no comment removed in between) -/
+def Consistent : Nat → List Ch → Prop
+  | _, [] => True
+  | ln, (c, l) :: rest => l = (if c = 10 then ln + 1 else ln) ∧ Consistent l rest
+
+theorem lastLine_cons (c : B) (l : Nat) (t : List Ch) (d : Nat) : lastLine ((c, l) :: t) d = lastLine t l := by
+  cases t <;> simp [lastLine, List.getLast?, List.getLast?_cons_cons]
+
+theorem consistent_take_drop : ∀ (t : List Ch) (ln k : Nat), Consistent ln t →
+    lastLine (t.take k) ln = ln + newlines (txt (t.take k)) ∧ Consistent (ln + newlines (txt (t.take k))) (t.drop k) := by
+  intro t
+  induction t with
+  | nil => intro ln k _; simp [lastLine, txt, newlines, Consistent]
+  | cons ch rest ih =>
+    intro ln k h
+    obtain ⟨c, l⟩ := ch
+    cases k with
+    | zero => simpa [lastLine, txt, newlines] using h
+    | succ k =>
+      obtain ⟨hl, hr⟩ := h
+      obtain ⟨h1, h2⟩ := ih l k hr
+      have e : l + newlines (txt (rest.take k)) = ln + newlines (txt (((c, l) :: rest).take (k + 1))) := by
+        simp only [List.take_succ_cons, txt, List.map_cons]
+        have := newlines_cons c (List.map (fun x => x.1) (rest.take k))
+        simp only [txt] at *
+        rw [this, hl]; split <;> omega
+      refine ⟨?_, by simpa [e] using h2⟩
+      rw [← e, ← h1, List.take_succ_cons, lastLine_cons]
+
+theorem strip_plain_consistent (text : List B) : ∀ (inStr : Bool) (ln : Nat), (∀ c ∈ text, c ≠ 13 ∧ c ≠ 92 ∧ c ≠ 47) →
+    Consistent ln (strip (RS.base inStr) ln text) := by
+  induction text with
+  | nil => intro inStr ln _; cases inStr <;> simp [strip, flush, RS.base, Consistent]
+  | cons c cs ih =>
+    intro inStr ln h
+    have hc := h c (by simp)
+    have hcs : ∀ x ∈ cs, x ≠ 13 ∧ x ≠ 92 ∧ x ≠ 47 := fun x hx => h x (by simp [hx])
+    rw [strip]
+    have hs : stepC (RS.base inStr) ln c = base inStr ln c := by cases inStr <;> rfl
+    rw [hs]
+    by_cases hq : c = 34
+    · subst hq
+      have : base inStr ln 34 = ([(34, ln)], RS.base (!inStr), ln) := by simp [base]
+      rw [this]
+      exact ⟨by simp, ih (!inStr) ln hcs⟩
+    · rw [base_plain inStr ln c hc.1 hc.2.1 hq (Or.inl hc.2.2)]
+      exact ⟨rfl, ih inStr _ hcs⟩
+
+/-- one step over text that holds no `#` and no macro name: what was consumed is what is written, and the
+    line count of the output moves with the line of the input -/
 theorem step_plain (e : Env) (f : Nat) (stack : List (List B)) (phys : List B) (st : St) (c : B) (l : Nat) (rest : List Ch) (bol : Bool) (ln : Nat)
-    (hw : st.writing = true) (hc : c ≠ 35)
+    (hw : st.writing = true) (hc : c ≠ 35) (hol : st.ol = ln) (hcons : Consistent ln ((c, l) :: rest))
     (hid : ∀ w ∈ idents (c :: txt rest) [], st.table.find w = none) :
     ∃ k, k ≤ rest.length ∧
-      (step e (f + 1) stack phys st (c, l) rest bol ln).map (fun r => (r.1, r.2.1)) =
-        .ok ({ st with out := st.out ++ c :: txt (rest.take k) }, rest.drop k) ∧
+      (step e (f + 1) stack phys st (c, l) rest bol ln).map (fun r => (r.1, r.2.1, r.2.2.2)) =
+        .ok (st.write (c :: txt (rest.take k)), rest.drop k, ln + newlines (c :: txt (rest.take k))) ∧
       ∀ w ∈ idents (txt (rest.drop k)) [], st.table.find w = none := by
+  have hline : ∀ k, lastLine (((c, l) :: rest).take (k + 1)) ln = ln + newlines (c :: txt (rest.take k)) := by
+    intro k
+    have := (consistent_take_drop ((c, l) :: rest) ln (k + 1) hcons).1
+    simpa [txt] using this
+  have hl : l = ln + newlines [c] := by
+    have := hline 0
+    simpa [lastLine, txt] using this
   rw [step]
   by_cases hq : c = 34
   · subst hq
     obtain ⟨k, hk, hle, hend⟩ := takeString_txt rest
-    refine ⟨k, hle, by simp [quote, hk, emit_active _ _ hw, Except.map], ?_⟩
-    intro w hw'
-    apply hid
-    have hsplit : (34 : B) :: txt rest = (34 :: txt (rest.take k)) ++ txt (rest.drop k) := by
-      simp [txt, ← List.map_append]
-    rw [hsplit]
-    cases hend with
-    | inl h => rw [h] at hw'; simp [txt, idents] at hw'
-    | inr h =>
-      apply idents_suffix _ _ _ (by simp) _ w hw'
-      intro x hx
-      have : x = 34 := by
-        cases hm : txt (rest.take k) with
-        | nil => rw [hm] at h; simp at h
-        | cons a as => rw [hm] at h hx; simp only [List.getLast?_cons_cons] at hx; rw [h] at hx; simpa using hx.symm
-      subst this; decide
+    refine ⟨k, hle, ?_, ?_⟩
+    · have hlen : (txt (rest.take k)).length = k := by simp [txt, Nat.min_eq_left hle]
+      have h2 := hline k
+      simp only [List.take_succ_cons] at h2
+      have hd : lastLine ((34, l) :: rest.take k) l = lastLine ((34, l) :: rest.take k) ln := by rw [lastLine_cons, lastLine_cons]
+      simp [quote, hk, emit_active _ _ hw, Except.map, hlen, hd, h2]
+    · intro w hw'
+      apply hid
+      have hsplit : (34 : B) :: txt rest = (34 :: txt (rest.take k)) ++ txt (rest.drop k) := by
+        simp [txt, ← List.map_append]
+      rw [hsplit]
+      cases hend with
+      | inl h => rw [h] at hw'; simp [txt, idents] at hw'
+      | inr h =>
+        apply idents_suffix _ _ _ (by simp) _ w hw'
+        intro x hx
+        have : x = 34 := by
+          cases hm : txt (rest.take k) with
+          | nil => rw [hm] at h; simp at h
+          | cons a as => rw [hm] at h hx; simp only [List.getLast?_cons_cons] at hx; rw [h] at hx; simpa using hx.symm
+        subst this; decide
   · have hq' : (c == quote) = false := by simpa [quote] using hq
     simp only [hq', Bool.false_eq_true, if_false]
     by_cases hn : c = 10
     · subst hn
-      refine ⟨0, by simp, by simp [nl, St.emitAlways, txt, Except.map], ?_⟩
-      intro w hw'
-      exact hid w (by rw [idents_nonword 10 _ (by decide)]; simpa using hw')
+      have hl1 : l = ln + 1 := by simpa [newlines] using hl
+      refine ⟨0, by simp, ?_, ?_⟩
+      · simp only [nl, beq_self_eq_true, if_true, Except.map, List.take_zero, txt, List.map_nil, List.drop_zero]
+        rw [sync_one st phys l (by omega)]
+        simp [St.write, newlines, hl1, hol, nl]
+      · intro w hw'
+        exact hid w (by rw [idents_nonword 10 _ (by decide)]; simpa using hw')
     · have hn' : (c == nl) = false := by simpa [nl] using hn
       have h35 : (c == 35) = false := by simpa using hc
       simp only [hn', h35, Bool.false_and, Bool.false_eq_true, if_false]
@@ -493,7 +616,11 @@ theorem step_plain (e : Env) (f : Nat) (stack : List (List B)) (phys : List B) (
         have hnone : st.table.find (c :: (txt rest).takeWhile isWordChar) = none := hid _ (by rw [hids]; simp)
         refine ⟨((txt rest).takeWhile isWordChar).length, ?_, ?_, ?_⟩
         · have := length_takeWhile_le_len isWordChar (txt rest); simpa [txt_length] using this
-        · simp only [htw, hnone, List.length_cons, Nat.add_sub_cancel, emit_active _ _ hw, Except.map]
+        · have h2 := hline ((txt rest).takeWhile isWordChar).length
+          have hd : ∀ t : List Ch, lastLine ((c, l) :: t) l = lastLine ((c, l) :: t) ln := by
+            intro t; rw [lastLine_cons, lastLine_cons]
+          simp only [List.take_succ_cons] at h2
+          simp only [htw, hnone, List.length_cons, Nat.add_sub_cancel, emit_active _ _ hw, Except.map, List.take_succ_cons, hd, h2]
           rw [txt_take, ← takeWhile_eq_take]
         · intro w hw'
           apply hid
@@ -503,46 +630,53 @@ theorem step_plain (e : Env) (f : Nat) (stack : List (List B)) (phys : List B) (
           exact hw'
       · have hwc' : isWordChar c = false := by simpa using hwc
         simp only [hwc', Bool.false_eq_true, if_false]
-        refine ⟨0, by simp, by simp [emit_active _ _ hw, txt, Except.map], ?_⟩
-        intro w hw'
-        exact hid w (by rw [idents_nonword c _ hwc']; simpa using hw')
+        refine ⟨0, by simp, ?_, ?_⟩
+        · simp [emit_active _ _ hw, txt, Except.map, hl]
+        · intro w hw'
+          exact hid w (by rw [idents_nonword c _ hwc']; simpa using hw')
 
 theorem map_ok_inv {α β : Type} (f : α → β) (x : Except Nat α) (y : β) (h : x.map f = .ok y) : ∃ z, x = .ok z ∧ f z = y := by
   cases x with
   | error c => simp [Except.map] at h
   | ok z => exact ⟨z, rfl, by simpa [Except.map] using h⟩
 
+theorem write_write (st : St) (a b : List B) : (st.write a).write b = st.write (a ++ b) := by
+  simp [St.write, newlines, List.filter_append, Nat.add_assoc]
+
 /-- the loop over text without `#` and without macro names writes exactly the text -/
 theorem loop_plain (e : Env) (stack : List (List B)) (phys : List B) : ∀ (n : Nat) (text : List Ch) (st : St) (bol : Bool) (ln : Nat),
-    text.length ≤ n → st.writing = true → (∀ c ∈ text, c.1 ≠ 35) →
+    text.length ≤ n → st.writing = true → st.ol = ln → Consistent ln text → (∀ c ∈ text, c.1 ≠ 35) →
     (∀ w ∈ idents (txt text) [], st.table.find w = none) →
-    loop e (n + 2) stack phys st text bol ln = .ok { st with out := st.out ++ txt text } := by
+    loop e (n + 2) stack phys st text bol ln = .ok (st.write (txt text)) := by
   intro n
   induction n with
   | zero =>
-    intro text st bol ln hlen _ _ _
+    intro text st bol ln hlen _ _ _ _ _
     have : text = [] := by cases text with | nil => rfl | cons _ _ => simp at hlen
     subst this
-    simp [loop, txt]
+    simp [loop, txt, St.write, newlines]
   | succ n ih =>
-    intro text st bol ln hlen hw h35 hid
+    intro text st bol ln hlen hw hol hcons h35 hid
     cases text with
-    | nil => simp [loop, txt]
+    | nil => simp [loop, txt, St.write, newlines]
     | cons ch rest =>
       obtain ⟨c, l⟩ := ch
       have hc : c ≠ 35 := h35 (c, l) (by simp)
-      obtain ⟨k, hk, hstep, hid'⟩ := step_plain e (n + 1) stack phys st c l rest bol ln hw hc (by simpa [txt] using hid)
+      obtain ⟨k, hk, hstep, hid'⟩ := step_plain e (n + 1) stack phys st c l rest bol ln hw hc hol hcons (by simpa [txt] using hid)
       obtain ⟨z, hz, hproj⟩ := map_ok_inv _ _ _ hstep
       obtain ⟨st1, rest1, b1, l1⟩ := z
       simp only [Prod.mk.injEq] at hproj
       rw [loop, hz]
       simp only []
-      obtain ⟨h1, h2⟩ := hproj
-      subst h1 h2
-      rw [ih (rest.drop k) { st with out := st.out ++ c :: txt (rest.take k) } b1 l1
-        (by simp at hlen ⊢; omega) hw (fun x hx => h35 x (by simp [List.mem_of_mem_drop hx])) hid']
-      simp only [txt, List.map_cons, List.append_assoc, List.cons_append]
+      obtain ⟨h1, h2, h3⟩ := hproj
+      subst h1 h2 h3
+      have hcd := (consistent_take_drop ((c, l) :: rest) ln (k + 1) hcons).2
+      rw [ih (rest.drop k) (st.write (c :: txt (rest.take k))) b1 _
+        (by simp at hlen ⊢; omega) (by simpa [St.write, St.writing] using hw) (by simp [St.write, hol])
+        (by simpa [txt] using hcd) (fun x hx => h35 x (by simp [List.mem_of_mem_drop hx])) hid']
+      rw [write_write]
       congr 2
+      simp only [txt, List.map_cons, List.cons_append]
       rw [← List.map_append, List.take_append_drop]
 
 /-- **Text containing no directive, macro name or comment passes through byte for byte**: a file without
@@ -556,14 +690,15 @@ theorem C13_plain_passthrough (e : Env) (stack : List (List B)) (table : Table) 
   have hs : txt (stripAll text) = text := strip_plain text false 1 h1
   have hl : (stripAll text).length = text.length := by rw [← txt_length, hs]
   have := loop_plain e ((e.root ++ virt) :: stack) (e.root ++ virt) text.length (stripAll text)
-    { table := table, out := lineMarker 0 (e.root ++ virt) } true 1 (by omega) rfl
+    { table := table, out := lineMarker 0 (e.root ++ virt), ol := 1 } true 1 (by omega) rfl rfl
+    (strip_plain_consistent text false 1 h1)
     (by intro c hc hc35
         have : c.1 ∈ txt (stripAll text) := List.mem_map_of_mem (f := fun x : Ch => x.1) hc
         rw [hs] at this
         exact h2 c.1 this hc35)
     (by rw [hs]; exact h3)
   rw [this]
-  simp [hs]
+  simp [hs, St.write]
 
 /-! ## Directives -/
 
@@ -610,28 +745,36 @@ theorem find_undef_other (t : Table) (n k : List B) (h : k ≠ n) : (t.undef n).
 def dirLine (rest : List Ch) (ln : Nat) : List B :=
   trim (getLine (rest.drop (upper ((txt rest).takeWhile isWordChar)).length) false [] ln).1
 
+/-- the line of the input behind a directive (and the lines that continued it) -/
+def dirEnd (rest : List Ch) (ln : Nat) : Nat :=
+  (getLine (rest.drop (upper ((txt rest).takeWhile isWordChar)).length) false [] ln).2.2
+
+/-- the state behind a directive without output: the output continues at the line of the input -/
+def afterDir (st : St) (phys : List B) (rest : List Ch) (ln : Nat) : St :=
+  st.sync phys (dirEnd rest ln) (dirEnd rest ln != ln)
+
 /-- **The directives are obeyed** (in an active section): `#define` enters the macro its line declares —
 replacing an earlier one of that name —, `#undef` removes the name, `#ifdef`/`#ifndef` open a section that
-writes exactly when the name is (not) defined, `#else` flips the innermost section, `#endif` closes it; each
-writes one newline in place of its line -/
+writes exactly when the name is (not) defined, `#else` flips the innermost section, `#endif` closes it; in
+place of its line(s) each leaves what brings the output to the line of the input (`sync`) -/
 theorem C13_directives_obeyed (e : Env) (f : Nat) (stack : List (List B)) (phys : List B) (st : St) (rest : List Ch) (ln : Nat)
     (hw : st.writing = true) (d : Dir) (hd : classify (upper ((txt rest).takeWhile isWordChar)) = d) :
     (d = .define → ∃ pos, directive e (f + 1) stack phys st rest ln =
-        .ok ({ st with table := st.table.define (parseDefine (dirLine rest ln)), out := st.out ++ [nl] }, pos)) ∧
+        .ok ({ afterDir st phys rest ln with table := st.table.define (parseDefine (dirLine rest ln)) }, pos)) ∧
     (d = .undef → ∃ pos, directive e (f + 1) stack phys st rest ln =
-        .ok ({ st with table := st.table.undef (dirLine rest ln), out := st.out ++ [nl] }, pos)) ∧
+        .ok ({ afterDir st phys rest ln with table := st.table.undef (dirLine rest ln) }, pos)) ∧
     (d = .ifdef → ∃ pos, directive e (f + 1) stack phys st rest ln =
-        .ok ({ st with conds := (st.table.find (dirLine rest ln)).isSome :: st.conds, out := st.out ++ [nl] }, pos)) ∧
+        .ok ({ afterDir st phys rest ln with conds := (st.table.find (dirLine rest ln)).isSome :: st.conds }, pos)) ∧
     (d = .ifndef → ∃ pos, directive e (f + 1) stack phys st rest ln =
-        .ok ({ st with conds := (st.table.find (dirLine rest ln)).isNone :: st.conds, out := st.out ++ [nl] }, pos)) ∧
+        .ok ({ afterDir st phys rest ln with conds := (st.table.find (dirLine rest ln)).isNone :: st.conds }, pos)) ∧
     (d = .else_ → ∀ b cs, st.conds = b :: cs → ∃ pos, directive e (f + 1) stack phys st rest ln =
-        .ok ({ st with conds := (!b) :: cs, out := st.out ++ [nl] }, pos)) ∧
+        .ok ({ afterDir st phys rest ln with conds := (!b) :: cs }, pos)) ∧
     (d = .endif → ∀ b cs, st.conds = b :: cs → ∃ pos, directive e (f + 1) stack phys st rest ln =
-        .ok ({ st with conds := cs, out := st.out ++ [nl] }, pos)) := by
+        .ok ({ afterDir st phys rest ln with conds := cs }, pos)) := by
   refine ⟨?_, ?_, ?_, ?_, ?_, ?_⟩ <;> intro hd'
   all_goals subst hd'
   all_goals rw [directive]
-  all_goals simp only [hd, hw, dirLine, St.emitAlways, Bool.not_true, Bool.false_eq_true, if_false]
+  all_goals simp only [hd, hw, dirLine, dirEnd, afterDir, Bool.not_true, Bool.false_eq_true, if_false]
   · exact ⟨_, rfl⟩
   · exact ⟨_, rfl⟩
   · exact ⟨_, rfl⟩
@@ -663,8 +806,10 @@ example : out n!"#define P(a,b) <a|b>\n#define K 7\nP([1,2],\"x,y)\") P(K,) P((3
 -- a parameter name inside a string or a longer identifier is not a parameter
 example : out n!"#define S(a) \"a\" a ab a_\nS(1)" = some (hdr ++ n!"\n\"a\" 1 ab a_") := by decide +kernel
 -- conditionals, nesting, undef
-example : out n!"#define X\n#ifdef X\nyes\n#else\nno\n#endif\n#undef X\n#ifdef X\nyes2\n#endif" = some (hdr ++ n!"\n\nyes\n\n\n\n\n\n\n\n") := by decide +kernel
-example : out n!"#ifdef NO\n#ifdef _SQFVM\nh1\n#else\nh2\n#endif\n#define Z 1\n#foo\n#else\nshown Z\n#endif" = some (hdr ++ n!"\n\n\n\n\n\n\n\n\nshown Z\n\n") := by decide +kernel
+example : out n!"#define X\n#ifdef X\nyes\n#else\nno\n#endif\n#undef X\n#ifdef X\nyes2\n#endif" = some (hdr ++ n!"\n\nyes\n\n\n\n\n\n\n") := by decide +kernel
+example : out n!"#ifdef NO\n#ifdef _SQFVM\nh1\n#else\nh2\n#endif\n#define Z 1\n#foo\n#else\nshown Z\n#endif" = some (hdr ++ n!"\n\n\n\n\n\n\n\n\nshown Z\n") := by decide +kernel
+-- a definition over three lines leaves three newlines: what follows keeps its line
+example : out n!"#define M(a,b) a \\\n + \\\n b\nx = M(1,\n2); y\nz" = some (hdr ++ n!"\n\n\nx = 1  +  \n2; y\nz") := by decide +kernel
 -- include
 example : out n!"#include \"\\a.h\"\nQ" = some (hdr ++ n!"#line 1 \"/$R/a.h\"\n#line 0 \"/$R/a.h\"\n\nin 5\n\n#line 1 \"/$R/main.sqf\"\n5") := by decide +kernel
 -- errors
